@@ -65,6 +65,19 @@ Inductive pop := PAsk (q : N * N * N) (pre : option (N * N * N)) | PAge (q : N *
     records. [POAge present]. *)
 Inductive pobs := POAsk (rq : N * N * N) (recs : list (N * N)) | POAge (present : bool).
 
+(** Steps of a run of [cache; upstream] with queries that differ in AD/CD/DO.
+    A query is (name id, flags), flags = AD + 2 CD + 4 DO, type A, class IN. The
+    upstream answers as a function of the FULL query it receives: one A record of
+    the query's name whose address encodes that name and the flags it saw.
+    [FAsk n f]: the query, then every lazy update is joined. [FAge n f]: the entry
+    under its key is made 400 s older. *)
+Inductive fop := FAsk (n f : N) | FAge (n f : N).
+
+(** [FOAsk qn an af sync bg]: the reply's question name, the name and the flags
+    its address was computed for, whether the upstream was asked synchronously,
+    and the (name, flags) of the query a background refresh sent upstream. *)
+Inductive fobs := FOAsk (qn an af : N) (sync : bool) (bg : option (N * N)) | FOAge (present : bool).
+
 Inductive case :=
   (** VerifGetMsgKey on two messages; [eq]: the two Go strings are equal *)
 | CKeys (q1 q2 : qd) (k1 k2 : kobs) (eq : bool)
@@ -95,7 +108,12 @@ Inductive case :=
       under whose key the store holds something: that question, the question
       section of what is held and (owner, rrtype) of its answer records. *)
 | CChain (lazy : bool) (sel m : N) (ops : list pop) (obs : list pobs)
-         (held : list ((N * N * N) * (N * N * N) * list (N * N))).
+         (held : list ((N * N * N) * (N * N * N) * list (N * N)))
+  (** [cache; flag-sensitive upstream] on one Cache (lazy or not), names 0..m-1;
+      at the end, for every (name, flags) under whose key something is held:
+      that pair and (question name, name and flags the address was computed for) *)
+| CFlag (lazy : bool) (m : N) (ops : list fop) (obs : list fobs)
+        (held : list ((N * N) * (N * N * N))).
 
 (** * Model side *)
 
@@ -391,6 +409,69 @@ Definition held3_eqb (a b : (N * N * N) * (N * N * N) * list (N * N)) : bool :=
   | (k1, q1, r1), (k2, q2, r2) => q3_eqb k1 k2 && q3_eqb q1 q2 && list_eqb rec_eqb r1 r2
   end.
 
+(** ** queries that differ in AD/CD/DO in front of a (lazy) cache *)
+
+Definition fq (n f : N) : qmsg :=
+  mkq false 0 (N.testbit f 0) (N.testbit f 1) [mkqu (lname n) 1 1]
+      [XOpt (if N.testbit f 2 then 32768 else 0)].
+Definition fkey (n f : N) : bytes := get_msg_key (fq n f).
+(** the upstream's answer to the query (n, f); its identity encodes both *)
+Definition fresp (n f : N) : resp := mkr [mkqu (lname n) 1 1] true (n + 16 * f).
+
+(** The background refresh of a stale hit is an execution of the same query —
+    same question, same AD/CD/DO — whose upstream answer replaces the entry. *)
+Fixpoint flag_run (lazy : bool) (st : store) (stale : list bytes) (ops : list fop)
+  : list fobs * store :=
+  match ops with
+  | [] => ([], st)
+  | FAge n f :: t =>
+    let k := fkey n f in
+    let present := match lookup k st with Some _ => true | None => false end in
+    let '(o, st') := flag_run lazy st (if present && negb (key_in k stale) then k :: stale else stale) t in
+    (FOAge present :: o, st')
+  | FAsk n f :: t =>
+    let k := fkey n f in
+    let is_stale := key_in k stale in
+    let refresh := is_stale && lazy in
+    let st0 := if is_stale && negb lazy then fst (step st (Drop k)) else st in
+    let '(st1, out) := step st0 (Query (fq n f) (Some (fresp n f)) None) in
+    let st2 := if refresh
+               then fst (step st1 (Query (fq n f) (Some (fresp n f)) (Some (fresp n f))))
+               else st1 in
+    let v := match out with Hit v => v | _ => fresp n f end in
+    let ob := FOAsk (resp_name v) (r_id v mod 16) (r_id v / 16)
+                    (match out with Hit _ => false | _ => true end)
+                    (if refresh then Some (n, f) else None) in
+    let '(o, st') := flag_run lazy st2 (key_del k stale) t in
+    (ob :: o, st')
+  end.
+
+Fixpoint funiverse (n : N) (m : nat) : list (N * N) :=
+  match m with
+  | O => []
+  | S m' => map (fun f => (n, f)) [0; 1; 2; 3; 4; 5; 6; 7] ++ funiverse (n + 1) m'
+  end.
+
+Definition fheld_from (st : store) (m : N) : list ((N * N) * (N * N * N)) :=
+  flat_map (fun p => match lookup (fkey (fst p) (snd p)) st with
+                     | Some v => [(p, (resp_name v, r_id v mod 16, r_id v / 16))]
+                     | None => []
+                     end) (funiverse 0 (N.to_nat m)).
+
+Definition nn_eqb (a b : N * N) : bool := (fst a =? fst b) && (snd a =? snd b).
+Definition fobs_eqb (a b : fobs) : bool :=
+  match a, b with
+  | FOAsk q1 n1 f1 s1 b1, FOAsk q2 n2 f2 s2 b2 =>
+    (q1 =? q2) && (n1 =? n2) && (f1 =? f2) && Bool.eqb s1 s2 && option_eqb nn_eqb b1 b2
+  | FOAge p1, FOAge p2 => Bool.eqb p1 p2
+  | _, _ => false
+  end.
+Definition fheld_eqb (a b : (N * N) * (N * N * N)) : bool :=
+  match a, b with
+  | (k1, (q1, n1, f1)), (k2, (q2, n2, f2)) =>
+    nn_eqb k1 k2 && (q1 =? q2) && (n1 =? n2) && (f1 =? f2)
+  end.
+
 Definition agree (c : case) : bool :=
   match c with
   | CKeys d1 d2 k1 k2 eq =>
@@ -425,6 +506,9 @@ Definition agree (c : case) : bool :=
   | CChain lazy sel m ops obs held =>
     let '(o, st) := chain_run lazy sel [] [] ops in
     list_eqb pobs_eqb o obs && list_eqb held3_eqb (held3_from st m) held
+  | CFlag lazy m ops obs held =>
+    let '(o, st) := flag_run lazy [] [] ops in
+    list_eqb fobs_eqb o obs && list_eqb fheld_eqb (fheld_from st m) held
   end.
 
 (** * The property's own oracle, written without the key *)
@@ -521,6 +605,21 @@ Fixpoint chain_sound (ops : list pop) (obs : list pobs) : bool :=
   | _, _ => false
   end.
 
+(** Flag runs: a reply to the query (n, f) carries the question n and an answer
+    the downstream computed for exactly the name n and the flags f; a background
+    refresh asks the downstream the same name with the same flags; whatever is held
+    under the key of (n, f) is the downstream's answer to (n, f). *)
+Fixpoint flag_sound (ops : list fop) (obs : list fobs) : bool :=
+  match ops, obs with
+  | [], [] => true
+  | FAsk n f :: ops', FOAsk qn an af _ bg :: obs' =>
+    (qn =? n) && (an =? n) && (af =? f)
+    && match bg with Some (bn, bf) => (bn =? n) && (bf =? f) | None => true end
+    && flag_sound ops' obs'
+  | FAge _ _ :: ops', FOAge _ :: obs' => flag_sound ops' obs'
+  | _, _ => false
+  end.
+
 Definition spec (c : case) : bool :=
   match c with
   | CKeys d1 d2 k1 k2 eq =>
@@ -538,6 +637,11 @@ Definition spec (c : case) : bool :=
   | CChain lazy sel m ops obs held =>
     chain_sound ops obs
     && forallb (fun e => match e with (k, rq, recs) => answers3 k rq recs end) held
+  | CFlag lazy m ops obs held =>
+    flag_sound ops obs
+    && forallb (fun e => match e with
+                         | ((n, f), (qn, an, af)) => (qn =? n) && (an =? n) && (af =? f)
+                         end) held
   end.
 
 (** * Non-triviality *)
@@ -588,4 +692,10 @@ Definition nontrivial (c : case) : bool :=
                               | _ => false
                               end) ops))
     && match last ops (PAge (0, 0, 0)) with PAsk _ None => true | _ => false end
+  | CFlag lazy m ops obs held =>
+    (* a background refresh ran for a query with AD or CD set, and a query came after it *)
+    lazy && existsb (fun o => match o with
+                              | FOAsk _ _ _ _ (Some (_, f)) => negb (N.land f 3 =? 0)
+                              | _ => false
+                              end) (removelast obs)
   end.
